@@ -62,6 +62,7 @@ type PathResult struct {
 	Reached  []string    `json:"reached,omitempty"`
 	Asserts  int         `json:"asserts"`
 	PCText   string      `json:"pc,omitempty"`
+	SymClass string      `json:"-"`
 }
 
 type obsRec struct {
@@ -100,23 +101,45 @@ type Explorer struct {
 	Unknowns        int
 	BudgetPaths     int
 	FnsTouched      map[string]int
+	pcDec           []int   // number of decisions taken when pc[i] was added
+	prevPC          []*Term // path condition of the previous path (for prefix sharing in the solver)
+	prevPCDec       []int
+	shared          int // leading pc terms already asserted in the solver from the previous path
+	dom             map[string]bitset
+	entangled       map[string]bool
+	ByteDecided     int
 	Shard, Shards   int
 	ShardDepth      int
 	TrivialAsserts  int
+	noShare         bool
+	NeedModel       func(symClass string) bool
 	WantPC          bool
 	MapOrders       bool
 	StoreMon        *storeMonitor
 }
 
 func NewExplorer(s *Solver) *Explorer {
-	return &Explorer{S: s, MaxSteps: 3000000, MaxDepth: 400, MaxPaths: 200000,
+	return &Explorer{S: s, noShare: os.Getenv("SYMX_NOSHARE") != "", MaxSteps: 3000000, MaxDepth: 400, MaxPaths: 200000,
 		FnsTouched: map[string]int{}, Params: map[string]string{}}
 }
 
 func (e *Explorer) beginPath(prefix []Decision) {
+	// pc terms added before the decision where this path diverges from the
+	// previous one are identical (deterministic replay): keep them asserted.
+	e.prevPC = append(e.prevPC[:0], e.pc...)
+	e.prevPCDec = append(e.prevPCDec[:0], e.pcDec...)
+	div := len(prefix) - 1
+	shared := 0
+	if e.S != nil && div >= 0 && !e.noShare {
+		for shared < len(e.prevPC) && shared < e.flushed && e.prevPCDec[shared] <= div {
+			shared++
+		}
+	}
+	e.shared = shared
 	e.prefix = prefix
 	e.trace = e.trace[:0]
 	e.pc = e.pc[:0]
+	e.pcDec = e.pcDec[:0]
 	e.flushed = 0
 	e.nondet = e.nondet[:0]
 	e.nondetSeq = 0
@@ -127,14 +150,26 @@ func (e *Explorer) beginPath(prefix []Decision) {
 	e.depth = 0
 	e.asserts = 0
 	e.pcInfeasible = false
+	e.dom = map[string]bitset{}
+	e.entangled = map[string]bool{}
 	if e.S != nil {
-		e.S.Reset()
+		if e.shared > 0 {
+			e.S.PopTo(e.shared)
+		} else {
+			e.S.Reset()
+		}
 	}
 }
 
 func (e *Explorer) flush() {
 	for ; e.flushed < len(e.pc); e.flushed++ {
-		e.S.Assert(e.pc[e.flushed])
+		if e.flushed < e.shared {
+			if e.pc[e.flushed] != e.prevPC[e.flushed] {
+				panic(engineError("replay divergence: shared path-condition prefix differs"))
+			}
+			continue
+		}
+		e.S.AssertLevel(e.pc[e.flushed])
 	}
 }
 
@@ -143,6 +178,24 @@ func (e *Explorer) addPC(t *Term) {
 		return
 	}
 	e.pc = append(e.pc, t)
+	e.pcDec = append(e.pcDec, len(e.trace))
+	e.noteConstraint(t)
+}
+
+// feasible decides pc && (c == pol), by domains when possible.
+func (e *Explorer) feasible(c *Term, pol bool) SatResult {
+	switch e.satDom(c, pol) {
+	case triTrue:
+		e.ByteDecided++
+		return Sat
+	case triFalse:
+		e.ByteDecided++
+		return Unsat
+	}
+	if pol {
+		return e.check(c)
+	}
+	return e.check(tNot(c))
 }
 
 func (e *Explorer) check(extra ...*Term) SatResult {
@@ -203,12 +256,12 @@ func (e *Explorer) Branch(c *Term) bool {
 		e.shardCheck()
 		return d.Taken
 	}
-	rt := e.check(c)
+	rt := e.feasible(c, true)
 	var rf SatResult
 	if rt == Unsat {
 		rf = Sat // pc is satisfiable by construction
 	} else {
-		rf = e.check(tNot(c))
+		rf = e.feasible(c, false)
 	}
 	switch {
 	case rt != Unsat && rf != Unsat:
@@ -402,6 +455,39 @@ func (e *Explorer) Assert(c *Term, msg, pos string) {
 	e.addPC(c)
 }
 
+// symClass abstracts the observation log without a model: tags and the
+// concrete leading values; symbolic values print as their shape only.
+func (e *Explorer) symClass() string {
+	var sb strings.Builder
+	for _, o := range e.obs {
+		sb.WriteString(o.tag)
+		for _, v := range o.vals {
+			switch v := v.(type) {
+			case symVal:
+				sb.WriteString(" ?")
+			case symString:
+				sb.WriteString(fmt.Sprintf(" s%d", len(v)))
+			case string:
+				sb.WriteString(fmt.Sprintf(" s%d", len(v)))
+			case *omap:
+				if v != nil {
+					for _, en := range v.entries {
+						if ks, ok := en.k.(string); ok {
+							sb.WriteString(" " + ks)
+						}
+					}
+				}
+			case []value:
+				sb.WriteString(fmt.Sprintf(" l%d", len(v)))
+			default:
+				sb.WriteString(" " + renderValue(v, Model{}, map[int]uint64{}))
+			}
+		}
+		sb.WriteString(";")
+	}
+	return sb.String()
+}
+
 func (e *Explorer) renderObs(m Model) []string {
 	memo := map[int]uint64{}
 	var out []string
@@ -500,6 +586,17 @@ func (e *Explorer) runOne(body func()) (res PathResult) {
 		res.Status = "othershard"
 		return
 	}
+	res.Panic = uncaught
+	res.SymClass = e.symClass() + "|" + uncaught
+	if uncaught == "" && e.NeedModel != nil && !e.NeedModel(res.SymClass) {
+		res.Viol = e.viol
+		if len(res.Viol) > 0 {
+			res.Status = "violation"
+		} else {
+			res.Status = "ok"
+		}
+		return
+	}
 	m, r := e.model()
 	if r != Sat {
 		res.Status = "budget"
@@ -509,7 +606,6 @@ func (e *Explorer) runOne(body func()) (res PathResult) {
 	}
 	res.Replay = e.replayVector(m)
 	res.Obs = e.renderObs(m)
-	res.Panic = uncaught
 	res.Viol = e.viol
 	if e.WantPC {
 		var sb strings.Builder
